@@ -72,7 +72,6 @@ type reply struct {
 	Result any // decoded with UseNumber
 	Code   int // error code, 0 if none
 	ErrMsg string
-	Raw    string
 }
 
 func (r *reply) isErr() bool { return r.Result == nil && r.Code != 0 }
@@ -89,22 +88,23 @@ func (s *stack) call(v int, method, params string) (*reply, error) {
 		return nil, fmt.Errorf("HandleReader: %w", err)
 	}
 	var env struct {
-		Jsonrpc string          `json:"jsonrpc"`
-		ID      json.RawMessage `json:"id"`
-		Result  json.RawMessage `json:"result"`
+		Jsonrpc string      `json:"jsonrpc"`
+		ID      json.Number `json:"id"`
+		Result  any         `json:"result"`
 		Error   *struct {
-			Code    int             `json:"code"`
-			Message string          `json:"message"`
-			Data    json.RawMessage `json:"data"`
+			Code    int    `json:"code"`
+			Message string `json:"message"`
 		} `json:"error"`
 	}
-	if err := json.Unmarshal(out, &env); err != nil {
+	dec := json.NewDecoder(bytes.NewReader(out))
+	dec.UseNumber()
+	if err := dec.Decode(&env); err != nil {
 		return nil, fmt.Errorf("response is not JSON: %v: %s", err, out)
 	}
-	if env.Jsonrpc != "2.0" || string(env.ID) != "1" {
+	if env.Jsonrpc != "2.0" || env.ID != "1" {
 		return nil, fmt.Errorf("bad envelope: %s", out)
 	}
-	rp := &reply{Raw: string(out)}
+	rp := &reply{}
 	switch {
 	case env.Error != nil && env.Result == nil:
 		rp.Code, rp.ErrMsg = env.Error.Code, env.Error.Message
@@ -112,15 +112,8 @@ func (s *stack) call(v int, method, params string) (*reply, error) {
 			return nil, fmt.Errorf("error with code 0: %s", out)
 		}
 	case env.Error == nil && env.Result != nil:
-		dec := json.NewDecoder(bytes.NewReader(env.Result))
-		dec.UseNumber()
-		if err := dec.Decode(&rp.Result); err != nil {
-			return nil, fmt.Errorf("result is not JSON: %v", err)
-		}
-		if rp.Result == nil {
-			return nil, fmt.Errorf("null result: %s", out)
-		}
-	default:
+		rp.Result = env.Result
+	default: // also a null result: no read method of the property has a null answer
 		return nil, fmt.Errorf("response has neither/both result and error: %s", out)
 	}
 	return rp, nil
